@@ -155,6 +155,9 @@ func genC02(r *rand.Rand, tier string, env *Env) []Case {
 			o.inline = 0.35
 		}
 		p := genProgram(r, o)
+		if i%8 == 5 {
+			p = genGroupingCorner(r) // escaped parentheses / pipes / backslashes at the edges of the alternation
+		}
 		cases = append(cases, Case{Kind: "program", Ops: []Op{p.genOp()}, Oracles: []Op{{"c02.lexical", p.genOp().Args}}})
 	}
 	return cases
